@@ -498,8 +498,8 @@ var c17SigmaBound = [][2]float64{
 }
 
 var c17SigmaBoundBig = [][2]float64{
-	{18014398509481984, 27670116110564327424}, // 2^54, 1.5*2^64
-	{1.5 * 1152921504606846976, 1208925819614629174706176},   // 1.5*2^60, 2^80
+	{18014398509481984, 27670116110564327424},                 // 2^54, 1.5*2^64
+	{1.5 * 1152921504606846976, 1208925819614629174706176},    // 1.5*2^60, 2^80
 	{1180591620717411303424, 1267650600228229401496703205376}, // 2^70, 2^100
 	{18446744073709551616, 18446744073709555712},              // 2^64, 2^64+4096: rejection, negative values unbounded
 	{9007199254740994, 36893488147419103232},                  // 2^53+2, 2^65
